@@ -165,4 +165,41 @@ impl From<core::str::Utf8Error> for EncodingError {
     }
 }
 //@end
+
+// ---- the methods of `Decoder` through which every payload accessor decodes (C17: "decoding their payloads with the reader's decoder") ----
+// second copies under other names: the shared fragment types.rs declares `Decoder::decode` as an uninterpreted function for the
+// other units; here the REAL text is verified to be the strict decoding in the decoder's own encoding (seed C17_f: a "fast path"
+// that borrows any well-formed UTF-8 unchanged)
+impl Decoder {
+//@extract encoding::Decoder::decode#enc | src/encoding.rs :: impl Decoder :: fn decode | serves=C17 features=encoding
+//@rewrite fn decode ==> fn decode_method
+ pub(crate) fn decode_method<'b>(&self, bytes: &'b [u8]) -> (r: Result<Cow<'b, str>, EncodingError>)
+        // C17: the strict decoding of exactly these bytes in THE DECODER'S encoding, or an error -- whatever the bytes look like
+        ensures match r {
+            Ok(s) => strict_decode(self.encoding, bytes@) == Some(s@),
+            Err(e) => strict_decode(self.encoding, bytes@) is None,
+        }
+ {
+
+        let decoded = decode(bytes, self.encoding);
+
+        decoded
+    }
+//@end
+//@extract encoding::Decoder::decode_into#enc | src/encoding.rs :: impl Decoder :: fn decode_into | serves=C17 features=encoding n11=1
+//@rewrite fn decode_into ==> fn decode_into_method
+ pub(crate) fn decode_into_method(&self, bytes: &[u8], buf: &mut String) -> (r: Result<(), EncodingError>)
+        requires bytes@.len() <= usize::MAX / 4
+        ensures match r {
+            Ok(()) => exists|out: Seq<char>| strict_decode(self.encoding, bytes@) == Some(out) && final(buf)@ == old(buf)@ + out,
+            Err(_) => strict_decode(self.encoding, bytes@) is None,
+        }
+ {
+
+        match decode_into(bytes, self.encoding, buf) { Ok(v__) => v__, Err(e__) => return Err(From::from(e__)) };
+
+        Ok(())
+    }
+//@end
+}
 }
